@@ -1,0 +1,20 @@
+//go:build verif
+// +build verif
+
+package mod_redirect
+
+// Hook for the out-of-tree verification harness of property C49 (build tag verif).  Add-only.
+
+import (
+	"github.com/bfenetworks/bfe/bfe_basic"
+)
+
+// VerifC49Do checks the action list with the real ActionFileListCheck, converts it with the real actionsConvert and
+// runs the real redirectActionsDo on req.
+func VerifC49Do(req *bfe_basic.Request, conf ActionFileList) error {
+	if err := ActionFileListCheck(&conf); err != nil {
+		return err
+	}
+	redirectActionsDo(req, actionsConvert(conf))
+	return nil
+}
